@@ -12,7 +12,10 @@ fn build_query(w: &World, q: &Value) -> Query {
         ($b:expr) => {{
             let mut b = $b;
             if q["a"].as_i64().unwrap() != 0 {
-                b = b.author(w.author(q["a"].as_i64().unwrap()).id());
+                // an author rank beyond the table: an author that wrote nothing
+                let a = q["a"].as_i64().unwrap();
+                let id = if (a as usize) <= w.authors.len() { w.author(a).id() } else { w.stranger.id() };
+                b = b.author(id);
             }
             b = match q["kf"].as_str().unwrap() {
                 "exact" => b.key_exact(&key),
@@ -52,8 +55,8 @@ pub fn all_queries(n_auth: i64, keys: &[&[u8]]) -> Vec<Value> {
                 for sort in if kind == "flat" { vec!["ak", "ka"] } else { vec!["ka"] } {
                     for dir in ["asc", "desc"] {
                         for ie in [false, true] {
-                            for off in [0u64, 1, 2] {
-                                for lim in [-1i64, 0, 1, 2] {
+                            for off in [0u64, 1, 2, 1000] {
+                                for lim in [-1i64, 0, 1, 2, 1000] {
                                     out.push(json!({"kind":kind,"a":a,"kf":kf,"key":key_json(key),"sort":sort,
                                                     "dir":dir,"ie":ie,"off":off,"lim":lim}));
                                 }
@@ -98,8 +101,13 @@ pub fn run(w: &World, seed: u64, rng: &mut Rng, n_states: usize, sample: usize, 
         let store = run.store.as_mut().unwrap();
         let st = w.contents(store, ns);
         // queries: full product on the first states, a seeded sample afterwards
-        let keys: Vec<&[u8]> = KEYS[..g.n_keys.min(7)].to_vec();
-        let mut qs = all_queries(g.n_auth, &keys);
+        let mut keyv: Vec<Vec<u8>> = KEYS[..g.n_keys.min(7)].iter().map(|k| k.to_vec()).collect();
+        for j in 0..3 {
+            // long / random keys of this history's pool (and thereby prefixes of stored keys)
+            keyv.push(key_at(g.n_keys + j, g.n_keys));
+        }
+        let keys: Vec<&[u8]> = keyv.iter().map(|k| &k[..]).collect();
+        let mut qs = all_queries(g.n_auth + 1, &keys);
         if i >= 2 && qs.len() > sample {
             for j in 0..sample {
                 let k = j + rng.below(qs.len() - j);
@@ -125,7 +133,8 @@ pub fn run(w: &World, seed: u64, rng: &mut Rng, n_states: usize, sample: usize, 
         // point lookups for every (author, key) of the table
         let mut xs = vec![];
         for a in 1..=g.n_auth {
-            for k in KEYS.iter().take(g.n_keys) {
+            for ki in 0..pool_len(g.n_keys) {
+                let k = &key_at(ki, g.n_keys);
                 for ie in [false, true] {
                     let res = match store.get_exact(ns, w.author(a).id(), k, ie) {
                         Ok(Some(e)) => json!([w.proj_entry(&e)]),
